@@ -561,3 +561,947 @@ Record mig_pre (es : list (str * node)) (c : cfgrec) (name : str) : Prop := {
           exists w ws, cws c = Some w /\ cleanb w = true /\ w <> s_workspace /\
                        alookup w es = Some (Dir ws) /\ alookup s_workspace es = None
 }.
+
+Lemma clean_hist_old : cleanb s_hist_old = true. Proof. reflexivity. Qed.
+Lemma clean_hist_new : cleanb s_hist_new = true. Proof. reflexivity. Qed.
+Lemma clean_cache_old : cleanb s_cache_old = true. Proof. reflexivity. Qed.
+Lemma clean_cache_new : cleanb s_cache_new = true. Proof. reflexivity. Qed.
+
+Lemma v2fn_eq : cfgfn CWD0 P0 = path_join (path_join P0 s_dotsignac) s_config.
+Proof. reflexivity. Qed.
+Lemma v2dir_eq : dirname (cfgfn CWD0 P0) = path_join P0 s_dotsignac.
+Proof. reflexivity. Qed.
+Lemma hist_dst_eq : path_join P0 (path_join s_dotsignac s_hist_new) = path_join (path_join P0 s_dotsignac) s_hist_new.
+Proof. reflexivity. Qed.
+Lemma cache_dst_eq : path_join P0 (path_join s_dotsignac s_cache_new) = path_join (path_join P0 s_dotsignac) s_cache_new.
+Proof. reflexivity. Qed.
+
+(* a name the pre-state maps to something of a different kind than w's directory is not w *)
+Lemma neq_by_lookup : forall (es : list (str * node)) w k ws,
+  alookup w es = Some (Dir ws) -> (alookup k es = None \/ exists d, alookup k es = Some (File d)) -> w <> k.
+Proof.
+  intros es w k ws Lw Lk E. subst k. rewrite Lw in Lk. destruct Lk as [Lk|[d Lk]]; discriminate.
+Qed.
+
+Lemma fileish_cases : forall x, fileish x -> x = None \/ exists d, x = Some (File d).
+Proof. intros [[d|e|t]|] H; simpl in H; try contradiction; eauto. Qed.
+
+Section Refine.
+  Variable es : list (str * node).
+  Variable c : cfgrec.
+  Variable name : str.
+  Hypothesis PRE : mig_pre es c name.
+
+  Let esA := ws_entries c es.
+
+  (* the special names keep their entries through the workspace move *)
+  Lemma wsA_frame : forall k, k <> s_workspace ->
+    (alookup k es = None \/ exists d, alookup k es = Some (File d)) ->
+    alookup k esA = alookup k es.
+  Proof.
+    intros k Nk Lk. unfold esA, ws_entries.
+    destruct (mp_ws es c name PRE) as [W|[W|[w [ws [W [Hw [Nw [Lw Lws]]]]]]]]; rewrite W; try reflexivity.
+    rewrite (neq_eqb w s_workspace Nw), Lw.
+    pose proof (neq_by_lookup es w k ws Lw Lk) as Nwk.
+    rewrite alookup_aset_if, (neq_eqb k s_workspace Nk), alookup_aremove_if.
+    rewrite (neq_eqb k w (not_eq_sym Nwk)). reflexivity.
+  Qed.
+
+  Lemma step_ws : move_workspace CWD0 P0 c (world es) = (Ok tt, world esA).
+  Proof.
+    unfold move_workspace, esA, ws_entries.
+    destruct (mp_ws es c name PRE) as [W|[W|[w [ws [W [Hw [Nw [Lw Lws]]]]]]]]; rewrite W.
+    - reflexivity.
+    - reflexivity.
+    - rewrite (neq_eqb w s_workspace Nw), Lw.
+      assert (NL : nolink (alookup s_workspace es)) by (rewrite Lws; exact I).
+      rewrite (exists_child es s_workspace clean_workspace NL), Lws.
+      apply replace_child; auto; exact clean_workspace.
+  Qed.
+
+  Lemma rcA : alookup s_rc esA = Some (File (FCfg c)).
+  Proof.
+    rewrite wsA_frame; [exact (mp_rc es c name PRE) | discriminate | right; eexists; exact (mp_rc es c name PRE)].
+  Qed.
+  Lemma dotA : alookup s_dotsignac esA = None.
+  Proof. rewrite wsA_frame; [exact (mp_nodot es c name PRE) | discriminate | left; exact (mp_nodot es c name PRE)]. Qed.
+  Lemma docA : alookup s_doc esA = alookup s_doc es.
+  Proof.
+    apply wsA_frame; [discriminate|]. destruct (mp_doc es c name PRE) as [D|[kvs D]]; [left|right; eexists]; exact D.
+  Qed.
+  Lemma histA : alookup s_hist_old esA = alookup s_hist_old es.
+  Proof. apply wsA_frame; [discriminate|]. apply fileish_cases. exact (mp_hist es c name PRE). Qed.
+  Lemma cacheA : alookup s_cache_old esA = alookup s_cache_old es.
+  Proof. apply wsA_frame; [discriminate|]. apply fileish_cases. exact (mp_cache es c name PRE). Qed.
+
+  Let esB := doc_entries name esA.
+
+  Lemma step_doc :
+    (if str_eqb name s_None then (Ok tt, world esA)
+     else doc_set (world esA) CWD0 (path_join P0 s_doc) s_name_key (JStr name)) = (Ok tt, world esB).
+  Proof.
+    unfold esB, doc_entries. destruct (str_eqb name s_None); [reflexivity|].
+    unfold doc_set.
+    assert (NL : nolink (alookup s_doc esA)).
+    { rewrite docA. destruct (mp_doc es c name PRE) as [D|[kvs D]]; rewrite D; exact I. }
+    rewrite (stat_child esA s_doc clean_doc NL).
+    destruct (mp_doc es c name PRE) as [D|[kvs D]]; rewrite docA, D.
+    - apply write_child; [exact clean_doc | left; rewrite docA; exact D].
+    - apply write_child; [exact clean_doc | right; eexists; rewrite docA; exact D].
+  Qed.
+
+  Lemma frameB : forall k, k <> s_doc -> alookup k esB = alookup k esA.
+  Proof.
+    intros k Nk. unfold esB, doc_entries. destruct (str_eqb name s_None); [reflexivity|].
+    rewrite alookup_aset_if, (neq_eqb k s_doc Nk). reflexivity.
+  Qed.
+
+  Let esC := aset s_rc (File (FCfg (stripped c))) esB.
+  Let esD := aset s_dotsignac (Dir []) esC.
+  Let esE := aset s_dotsignac (Dir (aset s_config (File (FCfg (stripped c))) [])) (aremove s_rc esD).
+  Let esF := move_entry s_hist_old s_hist_new esE.
+  Let esG := move_entry s_cache_old s_cache_new esF.
+
+  Lemma step_rc : fs_write (world esB) CWD0 (path_join P0 s_rc) (FCfg (stripped c)) = (Ok tt, world esC).
+  Proof.
+    apply write_child; [exact clean_rc|]. right. exists (FCfg c).
+    rewrite frameB by discriminate. exact rcA.
+  Qed.
+
+  Lemma step_mkdir : fs_mkdir (world esC) CWD0 (dirname (cfgfn CWD0 P0)) = (Ok tt, world esD).
+  Proof.
+    rewrite v2dir_eq. apply mkdir_child; [exact clean_dotsignac|].
+    unfold esC. lk. rewrite frameB by discriminate. exact dotA.
+  Qed.
+
+  Lemma step_cfg : fs_replace (world esD) CWD0 (path_join P0 s_rc) (cfgfn CWD0 P0) = (Ok tt, world esE).
+  Proof.
+    rewrite v2fn_eq. unfold esE.
+    apply replace_into; try reflexivity.
+    - unfold esD, esC. lk. reflexivity.
+    - unfold esD. lk. reflexivity.
+    - discriminate.
+    - left. reflexivity.
+  Qed.
+
+  Lemma histE : alookup s_hist_old esE = alookup s_hist_old es.
+  Proof. unfold esE, esD, esC. lk. rewrite frameB by discriminate. exact histA. Qed.
+  Lemma cacheE : alookup s_cache_old esE = alookup s_cache_old es.
+  Proof. unfold esE, esD, esC. lk. rewrite frameB by discriminate. exact cacheA. Qed.
+  Lemma dotE : alookup s_dotsignac esE = Some (Dir (dot_of esE)).
+  Proof. unfold dot_of, esE. lk. reflexivity. Qed.
+
+  (* moving one optional file into .signac *)
+  Lemma move_if_file_world : forall es0 old new,
+    cleanb old = true -> cleanb new = true -> old <> s_dotsignac ->
+    fileish (alookup old es0) -> alookup s_dotsignac es0 = Some (Dir (dot_of es0)) ->
+    alookup new (dot_of es0) = None ->
+    path_join P0 (path_join s_dotsignac new) = path_join (path_join P0 s_dotsignac) new ->
+    move_if_file CWD0 P0 old new (world es0) = (Ok tt, world (move_entry old new es0)).
+  Proof.
+    intros es0 old new Ho Hn Nod F Ld Ln Ep. unfold move_if_file, move_entry.
+    assert (NL : nolink (alookup old es0)) by (destruct (alookup old es0) as [[d|e|t]|]; simpl in *; auto).
+    rewrite (isfile_child es0 old Ho NL).
+    destruct (alookup old es0) as [[d|e|t]|] eqn:Lo; try reflexivity; try (simpl in F; contradiction).
+    rewrite Ep. apply replace_into; auto; exact clean_dotsignac.
+  Qed.
+
+  Lemma step_hist : move_if_file CWD0 P0 s_hist_old s_hist_new (world esE) = (Ok tt, world esF).
+  Proof.
+    apply move_if_file_world; try reflexivity.
+    - discriminate.
+    - rewrite histE. exact (mp_hist es c name PRE).
+    - exact dotE.
+    - unfold dot_of, esE. lk. reflexivity.
+  Qed.
+
+  Lemma dotF : alookup s_dotsignac esF = Some (Dir (dot_of esF)).
+  Proof.
+    unfold dot_of, esF, move_entry. destruct (alookup s_hist_old esE) as [[d|e|t]|]; try (rewrite dotE; reflexivity).
+    lk. reflexivity.
+  Qed.
+
+  Lemma cacheF : alookup s_cache_old esF = alookup s_cache_old es.
+  Proof.
+    unfold esF, move_entry. destruct (alookup s_hist_old esE) as [[d|e|t]|]; try exact cacheE.
+    lk. exact cacheE.
+  Qed.
+
+  Lemma dot_of_F_cache : alookup s_cache_new (dot_of esF) = None.
+  Proof.
+    unfold dot_of, esF, move_entry. destruct (alookup s_hist_old esE) as [[d|e|t]|]; try (rewrite dotE; unfold dot_of, esE; lk; reflexivity).
+    lk. unfold dot_of, esE. lk. reflexivity.
+  Qed.
+
+  Lemma step_cache : move_if_file CWD0 P0 s_cache_old s_cache_new (world esF) = (Ok tt, world esG).
+  Proof.
+    apply move_if_file_world; try reflexivity.
+    - discriminate.
+    - rewrite cacheF. exact (mp_cache es c name PRE).
+    - exact dotF.
+    - exact dot_of_F_cache.
+  Qed.
+
+  (* the v1 -> v2 step on /p is mig_entries *)
+  Lemma mig_refines : migrate_v1_to_v2 (world es) CWD0 P0 = (Ok tt, world (mig_entries c name es)).
+  Proof.
+    unfold migrate_v1_to_v2.
+    rewrite (load_v1_world es c name (mp_rc es c name PRE) (mp_name es c name PRE)).
+    rewrite step_ws. unfold seq at 1. rewrite (mp_name es c name PRE).
+    rewrite step_doc. unfold seq at 1.
+    change {| cv := cv c; cproj := None; cws := None |} with (stripped c).
+    rewrite step_rc. unfold seq at 1.
+    rewrite step_mkdir. unfold seq at 1.
+    rewrite step_cfg. unfold seq at 1.
+    rewrite step_hist. unfold seq at 1.
+    rewrite step_cache. reflexivity.
+  Qed.
+End Refine.
+
+(* ------------------------------------------------------------------ move_entry keeps .signac tidy *)
+Lemma move_entry_dot : forall old new es0, old <> s_dotsignac ->
+  alookup s_dotsignac es0 = Some (Dir (dot_of es0)) ->
+  alookup s_dotsignac (move_entry old new es0) = Some (Dir (dot_of (move_entry old new es0))).
+Proof.
+  intros old new es0 N L. unfold move_entry.
+  destruct (alookup old es0) as [[d|e|t]|]; try exact L.
+  unfold dot_of at 2. lk. reflexivity.
+Qed.
+
+Lemma move_entry_in_dot : forall old new k es0, k <> new ->
+  alookup s_dotsignac es0 = Some (Dir (dot_of es0)) ->
+  alookup k (dot_of (move_entry old new es0)) = alookup k (dot_of es0).
+Proof.
+  intros old new k es0 N L. unfold move_entry.
+  destruct (alookup old es0) as [[d|e|t]|]; try reflexivity.
+  unfold dot_of at 1. rewrite (alookup_aset_if _ s_dotsignac). eqb_compute. cbv iota.
+  rewrite alookup_aset_if, (neq_eqb k new N). reflexivity.
+Qed.
+
+Lemma move_entry_other : forall old new k es0, k <> old -> k <> s_dotsignac ->
+  alookup k (move_entry old new es0) = alookup k es0.
+Proof.
+  intros old new k es0 N1 N2. unfold move_entry.
+  destruct (alookup old es0) as [[d|e|t]|]; try reflexivity.
+  rewrite alookup_aset_if, (neq_eqb k s_dotsignac N2), alookup_aremove_if, (neq_eqb k old N1). reflexivity.
+Qed.
+
+Lemma move_entry_old_gone : forall old new es0, old <> s_dotsignac -> fileish (alookup old es0) ->
+  alookup old (move_entry old new es0) = None.
+Proof.
+  intros old new es0 N F. unfold move_entry.
+  destruct (alookup old es0) as [[d|e|t]|] eqn:L; simpl in F; try contradiction.
+  - rewrite alookup_aset_if, (neq_eqb old s_dotsignac N), alookup_aremove_if, str_eqb_refl. reflexivity.
+  - exact L.
+Qed.
+
+Lemma move_entry_new : forall old new es0,
+  alookup s_dotsignac es0 = Some (Dir (dot_of es0)) -> alookup new (dot_of es0) = None ->
+  alookup new (dot_of (move_entry old new es0)) =
+  match alookup old es0 with Some (File d) => Some (File d) | _ => None end.
+Proof.
+  intros old new es0 L Ln. unfold move_entry.
+  destruct (alookup old es0) as [[d|e|t]|]; try exact Ln.
+  unfold dot_of at 1. rewrite (alookup_aset_if _ s_dotsignac). eqb_compute. cbv iota.
+  rewrite alookup_aset_if, str_eqb_refl. reflexivity.
+Qed.
+
+(* ------------------------------------------------------------------ the .signac directory after the step *)
+Section After.
+  Variable es : list (str * node).
+  Variable c : cfgrec.
+  Variable name : str.
+  Hypothesis PRE : mig_pre es c name.
+
+  Let esG := mig_entries c name es.
+  Let esE := aset s_dotsignac (Dir (aset s_config (File (FCfg (stripped c))) []))
+               (aremove s_rc (aset s_dotsignac (Dir []) (aset s_rc (File (FCfg (stripped c))) (doc_entries name (ws_entries c es))))).
+
+  Lemma dotE' : alookup s_dotsignac esE = Some (Dir (dot_of esE)).
+  Proof. unfold dot_of, esE. lk. reflexivity. Qed.
+
+  Lemma dotG : alookup s_dotsignac esG = Some (Dir (dot_of esG)).
+  Proof.
+    unfold esG, mig_entries. fold esE.
+    apply move_entry_dot; [discriminate|]. apply move_entry_dot; [discriminate|]. exact dotE'.
+  Qed.
+
+  Lemma cfgG : alookup s_config (dot_of esG) = Some (File (FCfg (stripped c))).
+  Proof.
+    unfold esG, mig_entries. fold esE.
+    rewrite move_entry_in_dot; [|discriminate|apply move_entry_dot; [discriminate|exact dotE']].
+    rewrite move_entry_in_dot; [|discriminate|exact dotE'].
+    unfold dot_of, esE. lk. reflexivity.
+  Qed.
+
+  Lemma rcG : alookup s_rc esG = None.
+  Proof.
+    unfold esG, mig_entries. fold esE.
+    rewrite move_entry_other by discriminate. rewrite move_entry_other by discriminate.
+    unfold esE. lk. reflexivity.
+  Qed.
+
+  Lemma step_bump2 : bump 2 CWD0 P0 (world esG) = (Ok tt, world (bump2_entries esG)).
+  Proof.
+    unfold bump. change (loader 2) with load_v2.
+    rewrite (load_v2_world esG (dot_of esG) (stripped c) dotG cfgG).
+    change (loader_fn 2 P0) with (path_join (path_join P0 s_dotsignac) s_config).
+    rewrite (write_child2 esG s_dotsignac s_config (dot_of esG) (FCfg (stripped c)) _ clean_dotsignac clean_config dotG cfgG).
+    reflexivity.
+  Qed.
+
+  Lemma version_after : get_version (world (bump2_entries esG)) CWD0 P0 2 = Some 2%Z.
+  Proof.
+    unfold get_version. change (loader_order 2) with [2%Z; 2%Z; 1%Z]. unfold first_load.
+    change (loader 2) with load_v2.
+    assert (L : load_v2 (world (bump2_entries esG)) CWD0 P0 = Some {| cv := Some 2%Z; cproj := None; cws := None |}).
+    { apply load_v2_world with (cd := aset s_config (File (FCfg {| cv := Some 2%Z; cproj := None; cws := None |})) (dot_of esG)).
+      - unfold bump2_entries. lk. reflexivity.
+      - lk. reflexivity. }
+    rewrite L. reflexivity.
+  Qed.
+
+  (* one full pass of the loop from version 1 *)
+  Lemma loop_from_1 : forall fuel, cv c = Some 1%Z ->
+    mig_loop (S (S fuel)) (world es) CWD0 P0 1 = (Ok tt, world (bump2_entries esG)).
+  Proof.
+    intros fuel V.
+    assert (G1 : get_version (world es) CWD0 P0 1 = Some 1%Z).
+    { unfold get_version. change (loader_order 1) with [1%Z; 2%Z; 1%Z]. unfold first_load.
+      change (loader 1) with load_v1.
+      rewrite (load_v1_world es c name (mp_rc es c name PRE) (mp_name es c name PRE)), V. reflexivity. }
+    change (mig_loop (S (S fuel)) (world es) CWD0 P0 1) with
+      (match get_version (world es) CWD0 P0 1 with
+       | None => (Err ERuntimeError, world es)
+       | Some v =>
+           if Z.ltb v SCHEMA then
+             if Z.eqb v 0 then seq (bump 1 CWD0 P0 (world es)) (fun r1 => mig_loop (S fuel) r1 CWD0 P0 1)
+             else if Z.eqb v 1 then
+               seq (wrap (migrate_v1_to_v2 (world es) CWD0 P0)) (fun r1 =>
+               seq (bump 2 CWD0 P0 r1) (fun r2 => mig_loop (S fuel) r2 CWD0 P0 2))
+             else (Err ERuntimeError, world es)
+           else (Ok tt, world es)
+       end).
+    rewrite G1. simpl Z.ltb. cbv iota. simpl Z.eqb. cbv iota.
+    rewrite (mig_refines es c name PRE). unfold wrap, seq at 1. fold esG.
+    rewrite step_bump2. unfold seq.
+    change (mig_loop (S fuel) (world (bump2_entries esG)) CWD0 P0 2) with
+      (match get_version (world (bump2_entries esG)) CWD0 P0 2 with
+       | None => (Err ERuntimeError, world (bump2_entries esG))
+       | Some v =>
+           if Z.ltb v SCHEMA then
+             if Z.eqb v 0 then seq (bump 1 CWD0 P0 (world (bump2_entries esG))) (fun r1 => mig_loop fuel r1 CWD0 P0 1)
+             else if Z.eqb v 1 then
+               seq (wrap (migrate_v1_to_v2 (world (bump2_entries esG)) CWD0 P0)) (fun r1 =>
+               seq (bump 2 CWD0 P0 r1) (fun r2 => mig_loop fuel r2 CWD0 P0 2))
+             else (Err ERuntimeError, world (bump2_entries esG))
+           else (Ok tt, world (bump2_entries esG))
+       end).
+    rewrite version_after. reflexivity.
+  Qed.
+End After.
+
+(* ------------------------------------------------------------------ apply_migrations on a legacy project *)
+Definition with_v1 (c : cfgrec) : cfgrec := {| cv := Some 1%Z; cproj := cproj c; cws := cws c |}.
+
+Definition final_entries (c : cfgrec) (name : str) (es : list (str * node)) : list (str * node) :=
+  match cv c with
+  | Some 1%Z => bump2_entries (mig_entries c name es)
+  | _ => bump2_entries (mig_entries (with_v1 c) name (aset s_rc (File (FCfg (with_v1 c))) es))
+  end.
+
+Lemma mig_pre_bumped : forall es c name, mig_pre es c name ->
+  mig_pre (aset s_rc (File (FCfg (with_v1 c))) es) (with_v1 c) name.
+Proof.
+  intros es c name PRE. destruct PRE as [Hrc Hn Hd Hdoc Hh Hc Hws]. constructor.
+  - lk. reflexivity.
+  - exact Hn.
+  - lk. exact Hd.
+  - lk. exact Hdoc.
+  - lk. exact Hh.
+  - lk. exact Hc.
+  - simpl cws. destruct Hws as [W|[W|[w [ws [W [Hw [Nw [Lw Lws]]]]]]]]; auto.
+    right. right. exists w, ws. repeat split; auto.
+    + rewrite alookup_aset_if.
+      assert (N : w <> s_rc) by (eapply neq_by_lookup; [exact Lw| right; eexists; exact Hrc]).
+      rewrite (neq_eqb w s_rc N). exact Lw.
+    + lk. exact Lws.
+Qed.
+
+Lemma version_at_start : forall es c name, mig_pre es c name -> forall g, g <> 1%Z ->
+  get_version (world es) CWD0 P0 g = Some (match cv c with Some v => v | None => 0%Z end).
+Proof.
+  intros es c name PRE g Ng. unfold get_version.
+  assert (L2 : load_v2 (world es) CWD0 P0 = None) by (apply load_v2_world_none; exact (mp_nodot es c name PRE)).
+  assert (L1 : load_v1 (world es) CWD0 P0 = Some c) by (eapply load_v1_world; [exact (mp_rc es c name PRE)|exact (mp_name es c name PRE)]).
+  unfold loader_order. apply Z.eqb_neq in Ng. rewrite Ng. simpl orb.
+  destruct (Z.eqb g 2); simpl; unfold loader; rewrite ?Ng; simpl; rewrite ?L2, L1; reflexivity.
+Qed.
+
+Lemma step_bump1 : forall es c name, mig_pre es c name ->
+  bump 1 CWD0 P0 (world es) = (Ok tt, world (aset s_rc (File (FCfg (with_v1 c))) es)).
+Proof.
+  intros es c name PRE. unfold bump. change (loader 1) with load_v1.
+  rewrite (load_v1_world es c name (mp_rc es c name PRE) (mp_name es c name PRE)).
+  change (loader_fn 1 P0) with (path_join P0 s_rc).
+  apply write_child; [exact clean_rc|]. right. eexists. exact (mp_rc es c name PRE).
+Qed.
+
+(* migrate_preserves_jobs, first half: a legacy project satisfying mig_pre migrates, and the
+   resulting directory content is final_entries *)
+Lemma migrate_ok : forall es c name, mig_pre es c name ->
+  (cv c = None \/ cv c = Some 0%Z \/ cv c = Some 1%Z) ->
+  migrate0 es = (Ok tt, world (final_entries c name es)).
+Proof.
+  intros es c name PRE V. unfold migrate0, apply_migrations.
+  rewrite (version_at_start es c name PRE SCHEMA) by discriminate.
+  destruct V as [V|[V|V]].
+  - (* absent = 0 *)
+    rewrite V. simpl Z.ltb. cbv iota.
+    change (mig_loop 4 (world es) CWD0 P0 0) with
+      (match get_version (world es) CWD0 P0 0 with
+       | None => (Err ERuntimeError, world es)
+       | Some v =>
+           if Z.ltb v SCHEMA then
+             if Z.eqb v 0 then seq (bump 1 CWD0 P0 (world es)) (fun r1 => mig_loop 3 r1 CWD0 P0 1)
+             else if Z.eqb v 1 then
+               seq (wrap (migrate_v1_to_v2 (world es) CWD0 P0)) (fun r1 =>
+               seq (bump 2 CWD0 P0 r1) (fun r2 => mig_loop 3 r2 CWD0 P0 2))
+             else (Err ERuntimeError, world es)
+           else (Ok tt, world es)
+       end).
+    rewrite (version_at_start es c name PRE 0) by discriminate. rewrite V.
+    simpl Z.ltb. cbv iota. simpl Z.eqb. cbv iota.
+    rewrite (step_bump1 es c name PRE). unfold seq.
+    rewrite (loop_from_1 _ (with_v1 c) name (mig_pre_bumped es c name PRE) 1 eq_refl).
+    unfold final_entries. rewrite V. reflexivity.
+  - rewrite V. simpl Z.ltb. cbv iota.
+    change (mig_loop 4 (world es) CWD0 P0 0) with
+      (match get_version (world es) CWD0 P0 0 with
+       | None => (Err ERuntimeError, world es)
+       | Some v =>
+           if Z.ltb v SCHEMA then
+             if Z.eqb v 0 then seq (bump 1 CWD0 P0 (world es)) (fun r1 => mig_loop 3 r1 CWD0 P0 1)
+             else if Z.eqb v 1 then
+               seq (wrap (migrate_v1_to_v2 (world es) CWD0 P0)) (fun r1 =>
+               seq (bump 2 CWD0 P0 r1) (fun r2 => mig_loop 3 r2 CWD0 P0 2))
+             else (Err ERuntimeError, world es)
+           else (Ok tt, world es)
+       end).
+    rewrite (version_at_start es c name PRE 0) by discriminate. rewrite V.
+    simpl Z.ltb. cbv iota. simpl Z.eqb. cbv iota.
+    rewrite (step_bump1 es c name PRE). unfold seq.
+    rewrite (loop_from_1 _ (with_v1 c) name (mig_pre_bumped es c name PRE) 1 eq_refl).
+    unfold final_entries. rewrite V. reflexivity.
+  - rewrite V. simpl Z.ltb. cbv iota.
+    rewrite (loop_from_1 es c name PRE 2 V).
+    unfold final_entries. rewrite V. reflexivity.
+Qed.
+
+(* ------------------------------------------------------------------ what the migrated directory holds *)
+Definition kvs_of_doc (es : list (str * node)) : list (str * json) :=
+  match alookup s_doc es with Some (File (FJson (JObj kvs))) => kvs | _ => [] end.
+
+Record mig_post (es : list (str * node)) (c : cfgrec) (name : str) (fin : list (str * node)) : Prop := {
+  (* every job: the whole workspace node is now <root>/workspace, untouched *)
+  po_ws_default : (cws c = None \/ cws c = Some s_workspace) -> alookup s_workspace fin = alookup s_workspace es;
+  po_ws_custom : forall w, cws c = Some w -> w <> s_workspace ->
+                   alookup s_workspace fin = alookup w es /\ alookup w fin = None;
+  (* the v1 artefacts are gone *)
+  po_rc : alookup s_rc fin = None;
+  po_hist_old : alookup s_hist_old fin = None;
+  po_cache_old : alookup s_cache_old fin = None;
+  (* the v2 configuration, cache and history *)
+  po_dot : exists cd, alookup s_dotsignac fin = Some (Dir cd) /\
+             alookup s_config cd = Some (File (FCfg {| cv := Some 2%Z; cproj := None; cws := None |})) /\
+             alookup s_hist_new cd = match alookup s_hist_old es with Some (File d) => Some (File d) | _ => None end /\
+             alookup s_cache_new cd = match alookup s_cache_old es with Some (File d) => Some (File d) | _ => None end;
+  (* the project name went into the project document iff it is not the default *)
+  po_doc_default : name = s_None -> alookup s_doc fin = alookup s_doc es;
+  po_doc_named : name <> s_None -> exists kvs,
+                   alookup s_doc fin = Some (File (FJson (JObj kvs))) /\
+                   alookup s_name_key kvs = Some (JStr name) /\
+                   forall k, k <> s_name_key -> alookup k kvs = alookup k (kvs_of_doc es);
+  (* nothing else is touched *)
+  po_frame : forall k, ~ In k [s_rc; s_dotsignac; s_doc; s_hist_old; s_cache_old; s_workspace] ->
+               (forall w, cws c = Some w -> k <> w) -> alookup k fin = alookup k es
+}.
+
+Lemma not_in_cons : forall (k a : str) l, ~ In k (a :: l) -> k <> a /\ ~ In k l.
+Proof. intros k a l H. split; [intro E; apply H; left; auto | intro I; apply H; right; exact I]. Qed.
+
+Section Post.
+  Variable es : list (str * node).
+  Variable c : cfgrec.
+  Variable name : str.
+  Hypothesis PRE : mig_pre es c name.
+
+  Let esA := ws_entries c es.
+  Let fin := bump2_entries (mig_entries c name es).
+
+  (* lookups of names other than the five special ones pass through everything after the workspace move *)
+  Lemma through : forall k, k <> s_rc -> k <> s_dotsignac -> k <> s_doc -> k <> s_hist_old -> k <> s_cache_old ->
+    alookup k fin = alookup k esA.
+  Proof.
+    intros k N1 N2 N3 N4 N5. unfold fin, bump2_entries, mig_entries.
+    rewrite alookup_aset_if, (neq_eqb k s_dotsignac N2).
+    rewrite move_entry_other by assumption. rewrite move_entry_other by assumption.
+    rewrite alookup_aset_if, (neq_eqb k s_dotsignac N2), alookup_aremove_if, (neq_eqb k s_rc N1).
+    rewrite alookup_aset_if, (neq_eqb k s_dotsignac N2), alookup_aset_if, (neq_eqb k s_rc N1).
+    fold esA. apply frameB. exact N3.
+  Qed.
+
+  Lemma post_step : mig_post es c name fin.
+  Proof.
+    pose proof (dotG es c name) as DG. pose proof (cfgG es c name) as CG. cbv zeta in DG, CG.
+    constructor.
+    - intros W. rewrite through by discriminate. unfold esA, ws_entries.
+      destruct W as [W|W]; rewrite W; reflexivity.
+    - intros w W Nw. rewrite through by discriminate.
+      destruct (mp_ws es c name PRE) as [W'|[W'|[w' [ws [W' [Hw [Nw' [Lw Lws]]]]]]]]; rewrite W in W'; try discriminate.
+      + inversion W'. contradiction.
+      + inversion W'. subst w'.
+        assert (Nrc : w <> s_rc) by (eapply neq_by_lookup; [exact Lw|right; eexists; exact (mp_rc es c name PRE)]).
+        assert (Ndot : w <> s_dotsignac) by (eapply neq_by_lookup; [exact Lw|left; exact (mp_nodot es c name PRE)]).
+        assert (Ndoc : w <> s_doc).
+        { eapply neq_by_lookup; [exact Lw|]. destruct (mp_doc es c name PRE) as [D|[kvs D]]; [left|right; eexists]; exact D. }
+        assert (Nh : w <> s_hist_old) by (eapply neq_by_lookup; [exact Lw|apply fileish_cases; exact (mp_hist es c name PRE)]).
+        assert (Nc : w <> s_cache_old) by (eapply neq_by_lookup; [exact Lw|apply fileish_cases; exact (mp_cache es c name PRE)]).
+        rewrite (through w Nrc Ndot Ndoc Nh Nc).
+        unfold esA, ws_entries. rewrite W, (neq_eqb w s_workspace Nw), Lw.
+        rewrite !alookup_aset_if, !alookup_aremove_if, !str_eqb_refl, (neq_eqb w s_workspace Nw). auto.
+    - unfold fin, bump2_entries. lk. apply rcG; exact PRE.
+    - unfold fin, bump2_entries, mig_entries. lk.
+      rewrite move_entry_other by discriminate.
+      apply move_entry_old_gone; [discriminate|].
+      lk. rewrite frameB by discriminate. rewrite (histA es c name PRE). exact (mp_hist es c name PRE).
+    - unfold fin, bump2_entries, mig_entries. lk.
+      apply move_entry_old_gone; [discriminate|].
+      rewrite move_entry_other by discriminate.
+      lk. rewrite frameB by discriminate. rewrite (cacheA es c name PRE). exact (mp_cache es c name PRE).
+    - exists (aset s_config (File (FCfg {| cv := Some 2%Z; cproj := None; cws := None |})) (dot_of (mig_entries c name es))).
+      split; [unfold fin, bump2_entries; lk; reflexivity|]. split; [lk; reflexivity|].
+      unfold mig_entries.
+      set (esE := aset s_dotsignac (Dir (aset s_config (File (FCfg (stripped c))) []))
+               (aremove s_rc (aset s_dotsignac (Dir []) (aset s_rc (File (FCfg (stripped c))) (doc_entries name (ws_entries c es)))))).
+      assert (DE : alookup s_dotsignac esE = Some (Dir (dot_of esE))) by (unfold dot_of, esE; lk; reflexivity).
+      assert (DF : alookup s_dotsignac (move_entry s_hist_old s_hist_new esE)
+                   = Some (Dir (dot_of (move_entry s_hist_old s_hist_new esE)))) by (apply move_entry_dot; [discriminate|exact DE]).
+      split.
+      + lk. rewrite move_entry_in_dot; [|discriminate|exact DF].
+        rewrite move_entry_new; [|exact DE|unfold dot_of, esE; lk; reflexivity].
+        unfold esE. lk. rewrite frameB by discriminate. rewrite (histA es c name PRE). reflexivity.
+      + lk. rewrite move_entry_new; [|exact DF|].
+        * rewrite move_entry_other by discriminate.
+          unfold esE. lk. rewrite frameB by discriminate. rewrite (cacheA es c name PRE). reflexivity.
+        * rewrite move_entry_in_dot; [|discriminate|exact DE]. unfold dot_of, esE. lk. reflexivity.
+    - intro E. unfold fin, bump2_entries, mig_entries. lk.
+      rewrite move_entry_other by discriminate. rewrite move_entry_other by discriminate. lk.
+      unfold doc_entries. rewrite E. eqb_compute. cbv iota. apply (docA es c name PRE).
+    - intro NE. unfold fin, bump2_entries, mig_entries. lk.
+      rewrite move_entry_other by discriminate. rewrite move_entry_other by discriminate. lk.
+      unfold doc_entries. rewrite (neq_eqb name s_None NE). lk.
+      rewrite (docA es c name PRE). unfold kvs_of_doc.
+      destruct (mp_doc es c name PRE) as [D|[kvs D]]; rewrite D.
+      + eexists. split; [reflexivity|]. split; [lk; reflexivity|].
+        intros k Nk. simpl. rewrite (neq_eqb k s_name_key Nk). reflexivity.
+      + eexists. split; [reflexivity|]. split; [apply alookup_aset_same|].
+        intros k Nk. apply alookup_aset_other. auto.
+    - intros k NI Hw.
+      apply not_in_cons in NI. destruct NI as [N1 NI]. apply not_in_cons in NI. destruct NI as [N2 NI].
+      apply not_in_cons in NI. destruct NI as [N3 NI]. apply not_in_cons in NI. destruct NI as [N4 NI].
+      apply not_in_cons in NI. destruct NI as [N5 NI]. apply not_in_cons in NI. destruct NI as [N6 _].
+      rewrite (through k N1 N2 N3 N4 N5). unfold esA, ws_entries.
+      destruct (cws c) as [w|] eqn:W; [|reflexivity].
+      destruct (str_eqb w s_workspace); [reflexivity|].
+      destruct (alookup w es); [|reflexivity].
+      rewrite alookup_aset_if, (neq_eqb k s_workspace N6), alookup_aremove_if, (neq_eqb k w (Hw w eq_refl)). reflexivity.
+  Qed.
+End Post.
+
+Lemma post_final : forall es c name, mig_pre es c name ->
+  mig_post es c name (final_entries c name es).
+Proof.
+  intros es c name PRE. unfold final_entries.
+  assert (GEN : mig_post es c name
+            (bump2_entries (mig_entries (with_v1 c) name (aset s_rc (File (FCfg (with_v1 c))) es)))).
+  { pose proof (post_step _ _ _ (mig_pre_bumped es c name PRE)) as Q. cbv zeta in Q.
+    destruct Q as [Q1 Q2 Q3 Q4 Q5 Q6 Q7 Q8 Q9]. simpl cws in *.
+    set (es1 := aset s_rc (File (FCfg (with_v1 c))) es) in *.
+    assert (T : forall k, k <> s_rc -> alookup k es1 = alookup k es).
+    { intros k N. unfold es1. rewrite alookup_aset_if, (neq_eqb k s_rc N). reflexivity. }
+    constructor.
+    - intro W. rewrite (Q1 W). apply T. discriminate.
+    - intros w W Nw. destruct (Q2 w W Nw) as [A B]. split; auto. rewrite A. apply T.
+      destruct (mp_ws es c name PRE) as [W'|[W'|[w' [ws [W' [Hw [Nw' [Lw Lws]]]]]]]]; rewrite W in W'; try discriminate.
+      + inversion W'. contradiction.
+      + inversion W'. subst w'. eapply neq_by_lookup; [exact Lw|right; eexists; exact (mp_rc es c name PRE)].
+    - exact Q3.
+    - exact Q4.
+    - exact Q5.
+    - destruct Q6 as [cd [A [B [C D]]]]. exists cd. repeat split; auto.
+      + rewrite C. rewrite T by discriminate. reflexivity.
+      + rewrite D. rewrite T by discriminate. reflexivity.
+    - intro E. rewrite (Q7 E). apply T. discriminate.
+    - intro NE. destruct (Q8 NE) as [kvs [A [B C]]]. exists kvs. repeat split; auto.
+      intros k Nk. rewrite (C k Nk). unfold kvs_of_doc. rewrite T by discriminate. reflexivity.
+    - intros k NI Hw. rewrite (Q9 k NI Hw). apply T. intro E. apply NI. left. auto. }
+  destruct (cv c) as [v|]; [|exact GEN].
+  destruct v as [|p|p]; try exact GEN.
+  destruct p; try exact GEN.
+  apply post_step. exact PRE.
+Qed.
+
+(* migrate_preserves_jobs (partial: under mig_pre, whose clause mp_ws demands that a configured
+   custom workspace directory exists) *)
+Lemma migrate_preserves_jobs : forall es c name, mig_pre es c name ->
+  (cv c = None \/ cv c = Some 0%Z \/ cv c = Some 1%Z) ->
+  exists fin, migrate0 es = (Ok tt, world fin) /\ mig_post es c name fin.
+Proof.
+  intros es c name PRE V. exists (final_entries c name es). split.
+  - apply migrate_ok; assumption.
+  - apply post_final. exact PRE.
+Qed.
+
+(* ------------------------------------------------------------------ the migrated project opens *)
+Lemma stat_P0 : forall es, os_stat (world es) CWD0 P0 = Some (Dir es).
+Proof.
+  intro es. unfold os_stat, os_resolve. simpl split_sl.
+  change (split_sl (os_full CWD0 P0)) with [[]; s_p].
+  rewrite FUEL_unfold, W_skip.
+  rewrite (W_look _ (world es) [] s_p [] _ clean_p (get_root_nil es)).
+  change (alookup s_p [(s_p, Dir es)]) with (Some (Dir es)). cbv iota.
+  rewrite W_nil. reflexivity.
+Qed.
+
+Lemma abspath_P0 : abspath CWD0 P0 = P0. Proof. reflexivity. Qed.
+
+Lemma opens_after : forall fin cd ws,
+  alookup s_dotsignac fin = Some (Dir cd) ->
+  alookup s_config cd = Some (File (FCfg {| cv := Some 2%Z; cproj := None; cws := None |})) ->
+  alookup s_workspace fin = Some (Dir ws) ->
+  get_project (world fin) CWD0 P0 true = (Ok P0, world fin).
+Proof.
+  intros fin cd ws Ld Lc Lw.
+  assert (NLc : nolink (alookup s_config cd)) by (rewrite Lc; exact I).
+  assert (ISF : os_isfile (world fin) CWD0 (cfgfn CWD0 P0) = true).
+  { unfold os_isfile. rewrite v2fn_eq.
+    rewrite (stat_child2 fin s_dotsignac s_config cd clean_dotsignac clean_config Ld NLc), Lc. reflexivity. }
+  unfold get_project. unfold os_exists. rewrite stat_P0. simpl negb. simpl andb. cbv iota.
+  unfold locate_config_dir. rewrite abspath_P0.
+  change (loc_up (S (length P0)) (world fin) CWD0 P0) with
+    (if os_isfile (world fin) CWD0 (cfgfn CWD0 P0) then Some P0
+     else let up := dirname P0 in if str_eqb up P0 then None else loc_up (length P0) (world fin) CWD0 up).
+  rewrite ISF. unfold project_open. rewrite ISF.
+  unfold read_cfg. rewrite v2fn_eq.
+  rewrite (stat_child2 fin s_dotsignac s_config cd clean_dotsignac clean_config Ld NLc), Lc.
+  simpl declared_version. simpl Z.eqb. cbv iota. rewrite abspath_P0.
+  assert (NLw : nolink (alookup s_workspace fin)) by (rewrite Lw; exact I).
+  unfold os_isdir. rewrite (stat_child fin s_workspace clean_workspace NLw), Lw. reflexivity.
+Qed.
+
+(* ------------------------------------------------------------------ no-op / refusal *)
+Lemma version_v2_layout : forall es cd c g, alookup s_dotsignac es = Some (Dir cd) ->
+  alookup s_config cd = Some (File (FCfg c)) -> g <> 1%Z ->
+  get_version (world es) CWD0 P0 g = Some (match cv c with Some v => v | None => 0%Z end).
+Proof.
+  intros es cd c g Ld Lc Ng. unfold get_version.
+  assert (L2 : load_v2 (world es) CWD0 P0 = Some c) by (eapply load_v2_world; eauto).
+  unfold loader_order. apply Z.eqb_neq in Ng. rewrite Ng. simpl orb.
+  destruct (Z.eqb g 2); simpl; unfold loader; rewrite ?Ng; simpl; rewrite L2; reflexivity.
+Qed.
+
+Lemma migrate_noop_on_v2 : forall es cd c, alookup s_dotsignac es = Some (Dir cd) ->
+  alookup s_config cd = Some (File (FCfg c)) -> cv c = Some 2%Z ->
+  migrate0 es = (Ok tt, world es).
+Proof.
+  intros es cd c Ld Lc V. unfold migrate0, apply_migrations.
+  rewrite (version_v2_layout es cd c SCHEMA Ld Lc) by discriminate. rewrite V.
+  simpl Z.ltb. cbv iota.
+  change (mig_loop 4 (world es) CWD0 P0 2) with
+    (match get_version (world es) CWD0 P0 2 with
+     | None => (Err ERuntimeError, world es)
+     | Some v =>
+         if Z.ltb v SCHEMA then
+           if Z.eqb v 0 then seq (bump 1 CWD0 P0 (world es)) (fun r1 => mig_loop 3 r1 CWD0 P0 1)
+           else if Z.eqb v 1 then
+             seq (wrap (migrate_v1_to_v2 (world es) CWD0 P0)) (fun r1 =>
+             seq (bump 2 CWD0 P0 r1) (fun r2 => mig_loop 3 r2 CWD0 P0 2))
+           else (Err ERuntimeError, world es)
+         else (Ok tt, world es)
+     end).
+  rewrite (version_v2_layout es cd c 2 Ld Lc) by discriminate. rewrite V. reflexivity.
+Qed.
+
+Lemma migrate_newer_refused_v2 : forall es cd c v, alookup s_dotsignac es = Some (Dir cd) ->
+  alookup s_config cd = Some (File (FCfg c)) -> cv c = Some v -> (2 < v)%Z ->
+  migrate0 es = (Err ERuntimeError, world es).
+Proof.
+  intros es cd c v Ld Lc V G. unfold migrate0, apply_migrations.
+  rewrite (version_v2_layout es cd c SCHEMA Ld Lc) by discriminate. rewrite V.
+  apply Z.ltb_lt in G. unfold SCHEMA. rewrite G. reflexivity.
+Qed.
+
+Lemma migrate_newer_refused_v1 : forall es c name v, alookup s_rc es = Some (File (FCfg c)) ->
+  cproj c = Some name -> alookup s_dotsignac es = None -> cv c = Some v -> (2 < v)%Z ->
+  migrate0 es = (Err ERuntimeError, world es).
+Proof.
+  intros es c name v Lrc Pn Ld V G. unfold migrate0, apply_migrations.
+  assert (GV : get_version (world es) CWD0 P0 SCHEMA = Some v).
+  { unfold get_version. change (loader_order SCHEMA) with [2%Z; 2%Z; 1%Z]. unfold first_load.
+    change (loader 2) with load_v2. change (loader 1) with load_v1.
+    rewrite (load_v2_world_none es Ld), (load_v1_world es c name Lrc Pn), V. reflexivity. }
+  rewrite GV. apply Z.ltb_lt in G. unfold SCHEMA. rewrite G. reflexivity.
+Qed.
+
+(* ------------------------------------------------------------------ refused migrations: collision, F17 *)
+Record fail_pre (es : list (str * node)) (c : cfgrec) (name w : str) : Prop := {
+  fp_rc : alookup s_rc es = Some (File (FCfg c));
+  fp_name : cproj c = Some name;
+  fp_nodot : alookup s_dotsignac es = None;
+  fp_w : cws c = Some w;
+  fp_clean : cleanb w = true;
+  fp_custom : w <> s_workspace;
+  fp_why : (exists x, alookup s_workspace es = Some x /\ nolink (Some x))        (* collision *)
+           \/ (alookup s_workspace es = None /\ alookup w es = None)              (* F17 *)
+}.
+
+Lemma step_ws_fail : forall es c name w, fail_pre es c name w ->
+  exists e, move_workspace CWD0 P0 c (world es) = (Err e, world es).
+Proof.
+  intros es c name w F. unfold move_workspace. rewrite (fp_w es c name w F).
+  rewrite (neq_eqb w s_workspace (fp_custom es c name w F)).
+  destruct (fp_why es c name w F) as [[x [Lx NL]]|[Lws Lw]].
+  - rewrite (exists_child es s_workspace clean_workspace) by (rewrite Lx; exact NL). rewrite Lx. eauto.
+  - rewrite (exists_child es s_workspace clean_workspace) by (rewrite Lws; exact I). rewrite Lws.
+    rewrite (replace_child_missing es w s_workspace (fp_clean es c name w F) clean_workspace Lw). eauto.
+Qed.
+
+Lemma loop_fail_from_1 : forall es c name w fuel, fail_pre es c name w -> cv c = Some 1%Z ->
+  mig_loop (S fuel) (world es) CWD0 P0 1 = (Err ERuntimeError, world es).
+Proof.
+  intros es c name w fuel F V.
+  assert (G1 : get_version (world es) CWD0 P0 1 = Some 1%Z).
+  { unfold get_version. change (loader_order 1) with [1%Z; 2%Z; 1%Z]. unfold first_load.
+    change (loader 1) with load_v1.
+    rewrite (load_v1_world es c name (fp_rc es c name w F) (fp_name es c name w F)), V. reflexivity. }
+  change (mig_loop (S fuel) (world es) CWD0 P0 1) with
+    (match get_version (world es) CWD0 P0 1 with
+     | None => (Err ERuntimeError, world es)
+     | Some v =>
+         if Z.ltb v SCHEMA then
+           if Z.eqb v 0 then seq (bump 1 CWD0 P0 (world es)) (fun r1 => mig_loop fuel r1 CWD0 P0 1)
+           else if Z.eqb v 1 then
+             seq (wrap (migrate_v1_to_v2 (world es) CWD0 P0)) (fun r1 =>
+             seq (bump 2 CWD0 P0 r1) (fun r2 => mig_loop fuel r2 CWD0 P0 2))
+           else (Err ERuntimeError, world es)
+         else (Ok tt, world es)
+     end).
+  rewrite G1. simpl Z.ltb. cbv iota. simpl Z.eqb. cbv iota.
+  unfold migrate_v1_to_v2.
+  rewrite (load_v1_world es c name (fp_rc es c name w F) (fp_name es c name w F)).
+  destruct (step_ws_fail es c name w F) as [e E]. rewrite E. reflexivity.
+Qed.
+
+Lemma fail_pre_bumped : forall es c name w, fail_pre es c name w ->
+  fail_pre (aset s_rc (File (FCfg (with_v1 c))) es) (with_v1 c) name w.
+Proof.
+  intros es c name w F. destruct F as [Hrc Hn Hd Hw Hc Hcu Hy]. constructor; auto.
+  - lk. reflexivity.
+  - lk. exact Hd.
+  - destruct Hy as [[x [Lx NL]]|[Lws Lw]].
+    + left. exists x. split; auto. lk. exact Lx.
+    + right. split; [lk; exact Lws|].
+      rewrite alookup_aset_if.
+      assert (N : w <> s_rc) by (intro E; subst w; rewrite Hrc in Lw; discriminate).
+      rewrite (neq_eqb w s_rc N). exact Lw.
+Qed.
+
+(* a refused migration leaves every entry except (possibly) the version number in signac.rc *)
+Lemma migrate_refused : forall es c name w, fail_pre es c name w ->
+  (cv c = None \/ cv c = Some 0%Z \/ cv c = Some 1%Z) ->
+  migrate0 es = (Err ERuntimeError,
+                 world (match cv c with Some 1%Z => es | _ => aset s_rc (File (FCfg (with_v1 c))) es end)).
+Proof.
+  intros es c name w F V. unfold migrate0, apply_migrations.
+  assert (GV : forall g, g <> 1%Z -> get_version (world es) CWD0 P0 g = Some (match cv c with Some v => v | None => 0%Z end)).
+  { intros g Ng. unfold get_version.
+    assert (L2 : load_v2 (world es) CWD0 P0 = None) by (apply load_v2_world_none; exact (fp_nodot es c name w F)).
+    assert (L1 : load_v1 (world es) CWD0 P0 = Some c) by (eapply load_v1_world; [exact (fp_rc es c name w F)|exact (fp_name es c name w F)]).
+    unfold loader_order. apply Z.eqb_neq in Ng. rewrite Ng. simpl orb.
+    destruct (Z.eqb g 2); simpl; unfold loader; rewrite ?Ng; simpl; rewrite ?L2, L1; reflexivity. }
+  assert (B1 : bump 1 CWD0 P0 (world es) = (Ok tt, world (aset s_rc (File (FCfg (with_v1 c))) es))).
+  { unfold bump. change (loader 1) with load_v1.
+    rewrite (load_v1_world es c name (fp_rc es c name w F) (fp_name es c name w F)).
+    change (loader_fn 1 P0) with (path_join P0 s_rc).
+    apply write_child; [exact clean_rc|]. right. eexists. exact (fp_rc es c name w F). }
+  rewrite (GV SCHEMA) by discriminate.
+  assert (ZERO : (match cv c with Some v => v | None => 0%Z end) = 0%Z ->
+    mig_loop 4 (world es) CWD0 P0 0 = (Err ERuntimeError, world (aset s_rc (File (FCfg (with_v1 c))) es))).
+  { intro Z0.
+    change (mig_loop 4 (world es) CWD0 P0 0) with
+      (match get_version (world es) CWD0 P0 0 with
+       | None => (Err ERuntimeError, world es)
+       | Some v =>
+           if Z.ltb v SCHEMA then
+             if Z.eqb v 0 then seq (bump 1 CWD0 P0 (world es)) (fun r1 => mig_loop 3 r1 CWD0 P0 1)
+             else if Z.eqb v 1 then
+               seq (wrap (migrate_v1_to_v2 (world es) CWD0 P0)) (fun r1 =>
+               seq (bump 2 CWD0 P0 r1) (fun r2 => mig_loop 3 r2 CWD0 P0 2))
+             else (Err ERuntimeError, world es)
+           else (Ok tt, world es)
+       end).
+    rewrite (GV 0%Z) by discriminate. rewrite Z0. simpl Z.ltb. cbv iota. simpl Z.eqb. cbv iota.
+    rewrite B1. unfold seq.
+    apply (loop_fail_from_1 _ (with_v1 c) name w 2 (fail_pre_bumped es c name w F) eq_refl). }
+  destruct V as [V|[V|V]]; rewrite V in *; simpl Z.ltb; cbv iota.
+  - apply ZERO. reflexivity.
+  - apply ZERO. reflexivity.
+  - apply (loop_fail_from_1 es c name w 3 F V).
+Qed.
+
+(* ------------------------------------------------------------------ model_holds (gate) *)
+Section NodeInd.
+  Variable Pn : node -> Prop.
+  Hypothesis Hfile : forall d, Pn (File d).
+  Hypothesis Hlink : forall t, Pn (Link t).
+  Hypothesis Hdir : forall es, Forall (fun kv => Pn (snd kv)) es -> Pn (Dir es).
+  Fixpoint node_ind' (n : node) : Pn n :=
+    match n with
+    | File d => Hfile d
+    | Link t => Hlink t
+    | Dir es =>
+        Hdir es ((fix go (l : list (str * node)) : Forall (fun kv => Pn (snd kv)) l :=
+                    match l with
+                    | [] => Forall_nil _
+                    | kv :: l' => Forall_cons kv (node_ind' (snd kv)) (go l')
+                    end) es)
+    end.
+End NodeInd.
+
+(* directory entries have distinct names, at every level *)
+Fixpoint wf_node (n : node) : bool :=
+  match n with
+  | Dir es =>
+      keys_distinct (map fst es) &&
+      (fix go (l : list (str * node)) : bool :=
+         match l with [] => true | (_, v) :: l' => wf_node v && go l' end) es
+  | _ => true
+  end.
+
+Lemma fdata_eqb_refl : forall d, fdata_eqb d d = true.
+Proof.
+  destruct d as [c|j|b]; simpl.
+  - unfold cfg_eqb. destruct c as [v p w]; simpl.
+    destruct v; simpl; rewrite ?Z.eqb_refl; destruct p; simpl; rewrite ?str_eqb_refl; destruct w; simpl; rewrite ?str_eqb_refl; reflexivity.
+  - apply json_eqb_eq. reflexivity.
+  - apply str_eqb_refl.
+Qed.
+
+Lemma node_eqb_refl : forall n, wf_node n = true -> node_eqb n n = true.
+Proof.
+  induction n as [d|t|es IH] using node_ind'; intro W; simpl.
+  - apply fdata_eqb_refl.
+  - apply str_eqb_refl.
+  - rewrite Nat.eqb_refl. simpl. simpl in W. apply andb_true_iff in W. destruct W as [KD W].
+    apply keys_distinct_NoDup in KD.
+    assert (G : forall l, (forall k v, In (k, v) l -> alookup k es = Some v /\ node_eqb v v = true) ->
+              (fix go (l : list (str * node)) : bool :=
+                 match l with
+                 | [] => true
+                 | (k, v) :: l' => match alookup k es with Some v' => node_eqb v v' | None => false end && go l'
+                 end) l = true).
+    { induction l as [|[k v] l IHl]; intro H; [reflexivity|].
+      destruct (H k v (or_introl eq_refl)) as [A B]. rewrite A, B. simpl. apply IHl.
+      intros k' v' I. apply H. right. exact I. }
+    apply G. intros k v I. split.
+    + apply NoDup_alookup; assumption.
+    + rewrite Forall_forall in IH. apply (IH (k, v) I).
+      clear - W I. induction es as [|[k0 v0] es IHes]; [contradiction|].
+      apply andb_true_iff in W. destruct W as [W0 W1]. destruct I as [E|I]; [inversion E; subst; exact W0 | auto].
+Qed.
+
+Lemma get_mkroot : forall base tree, get (CorrC20.mkroot base tree) (CorrC20.base_comps base) = Some tree.
+Proof.
+  intros base tree. unfold CorrC20.mkroot. induction (CorrC20.base_comps base) as [|c l IH]; simpl; [reflexivity|].
+  rewrite str_eqb_refl. exact IH.
+Qed.
+
+Lemma sub_eqb_self : forall base tree, wf_node tree = true ->
+  CorrC20.sub_eqb (CorrC20.mkroot base tree) (CorrC20.base_comps base) tree = true.
+Proof.
+  intros base tree W. unfold CorrC20.sub_eqb. rewrite get_mkroot, (node_eqb_refl tree W). reflexivity.
+Qed.
+
+Lemma res_str_eqb_eq : forall a b, res_str_eqb a b = true -> a = b.
+Proof.
+  destruct a, b; simpl; intro H; try discriminate.
+  - apply str_eqb_eq in H. congruence.
+  - apply exn_eqb_eq in H. congruence.
+Qed.
+
+(* Whenever the model refuses Project() / get_project() on a case and the implementation agrees with
+   the model, the implementation raised the same exception class and its byte snapshot is unchanged. *)
+Lemma model_holds_gate : forall c g e,
+  wf_node (c20_tree c) = true -> agree_g c g = true ->
+  (g_kind g = GProject \/ exists s, g_kind g = GGet s) ->
+  fst (run_g (CorrC20.mkroot (c20_base c) (c20_tree c)) (c20_cwd c) (c20_root c) (g_kind g)) = Err e ->
+  g_res g = Err e /\ g_changed g = false /\ g_post g = None.
+Proof.
+  intros c g e W A K R. unfold agree_g in A.
+  destruct (run_g (CorrC20.mkroot (c20_base c) (c20_tree c)) (c20_cwd c) (c20_root c) (g_kind g)) as [r root'] eqn:RG.
+  simpl in R. subst r.
+  assert (U : root' = CorrC20.mkroot (c20_base c) (c20_tree c)).
+  { destruct K as [K|[s K]]; rewrite K in RG; simpl in RG.
+    - eapply project_open_err_unchanged. exact RG.
+    - eapply get_project_err_unchanged. exact RG. }
+  subst root'.
+  repeat (apply andb_true_iff in A; destruct A as [A ?]).
+  apply res_str_eqb_eq in A. rewrite (sub_eqb_self _ _ W) in *. simpl in *.
+  destruct (g_changed g); [discriminate|]. repeat split; auto.
+  destruct (g_post g); [discriminate|reflexivity].
+Qed.
+
+(* the correspondence obligation on the migration, unpacked: what was observed IS the model's output *)
+Lemma model_holds_migration : forall c, agree_mig c = true ->
+  let root := CorrC20.mkroot (c20_base c) (c20_tree c) in
+  res_unit_eqb (fst (apply_migrations root (c20_cwd c) (c20_root c))) (c20_mig c) = true /\
+  CorrC20.sub_eqb (snd (apply_migrations root (c20_cwd c) (c20_root c))) (CorrC20.base_comps (c20_base c)) (c20_mig_post c) = true.
+Proof.
+  intros c A root. unfold agree_mig in A. fold root in A.
+  destruct (apply_migrations root (c20_cwd c) (c20_root c)) as [r1 root1].
+  destruct (apply_migrations root1 (c20_cwd c) (c20_root c)) as [r2 root2].
+  repeat (apply andb_true_iff in A; destruct A as [A ?]). simpl. auto.
+Qed.
+
+(* non-vacuity: a concrete legacy project (custom workspace with two jobs, cache, history, a
+   project document, a named project, schema version absent) satisfies mig_pre, and the model
+   migrates it to the expected v2 layout *)
+Definition ex_job (n : N) : node :=
+  Dir [([115; 112]%N, File (FBytes [123; n; 125]%N)); ([100]%N, File (FBytes [n]))].
+Definition ex_ws : list (str * node) := [(repeat 97%N 32, ex_job 49); (repeat 98%N 32, ex_job 50)].
+Definition ex_cfg0 : cfgrec := {| cv := None; cproj := Some [109; 121; 32; 112]%N; cws := Some s_ws |}.
+Definition ex_es : list (str * node) :=
+  [(s_rc, File (FCfg ex_cfg0)); (s_ws, Dir ex_ws); (s_cache_old, File (FBytes [1; 2; 3]%N));
+   (s_hist_old, File (FBytes [4; 5]%N)); (s_doc, File (FJson (JObj [([102]%N, JInt 1)])));
+   ([110; 111; 116; 101; 115]%N, File (FBytes [107]%N))].
+
+Lemma example_mig_pre : mig_pre ex_es ex_cfg0 [109; 121; 32; 112]%N.
+Proof.
+  constructor; try reflexivity; try exact I.
+  - right. eexists. reflexivity.
+  - right. right. exists s_ws, ex_ws. repeat split; try reflexivity. discriminate.
+Qed.
+
+Lemma example_result :
+  match migrate0 ex_es with
+  | (Ok _, Dir [(_, Dir fin)]) =>
+      opt_node_eqb (alookup s_workspace fin) (Some (Dir ex_ws)) &&
+      opt_node_eqb (alookup s_ws fin) None && opt_node_eqb (alookup s_rc fin) None &&
+      opt_node_eqb (get (Dir fin) [s_dotsignac; s_config]) (Some (File (FCfg {| cv := Some 2%Z; cproj := None; cws := None |}))) &&
+      opt_node_eqb (get (Dir fin) [s_dotsignac; s_cache_new]) (Some (File (FBytes [1; 2; 3]%N))) &&
+      opt_node_eqb (get (Dir fin) [s_dotsignac; s_hist_new]) (Some (File (FBytes [4; 5]%N))) &&
+      opt_node_eqb (alookup s_doc fin) (Some (File (FJson (JObj [([102]%N, JInt 1); (s_name_key, JStr [109; 121; 32; 112]%N)]))))
+  | _ => false
+  end = true.
+Proof. vm_compute. reflexivity. Qed.
